@@ -113,6 +113,8 @@ impl Runner {
             "avcc" => self.avcc(&unhex(toks.get(1).copied().unwrap_or(""))),
             "reset" => { self.ctx = Context::new(); "ok".into() }
             "full" => "ok".into(),   // announces the complete NAL of the prefix cases that follow (used by the C17 oracle)
+            "dump" => format!("sps=[{}] pps=[{}]", self.ctx.sps().map(|s| format!("{}:{}", s.seq_parameter_set_id.id(), s.level_idc)).collect::<Vec<_>>().join(","),
+                self.ctx.pps().map(|p| format!("{}:{}:{}", p.pic_parameter_set_id.id(), p.seq_parameter_set_id.id(), p.num_ref_idx_l0_default_active_minus1)).collect::<Vec<_>>().join(",")),
             "sps" => self.sps(&unhex(toks.get(1).copied().unwrap_or(""))),
             "pps" => self.pps(&unhex(toks.get(1).copied().unwrap_or(""))),
             "slice" => self.slice(unhex(toks[1])[0], &unhex(toks.get(2).copied().unwrap_or(""))),
